@@ -24,3 +24,11 @@ claim('C04',
       'Real-number model of floats; floor/ceil by their axioms with integer-relaxation; polygons bounded in vertex count.',
       'symbolic execution of the real Python + SMT (z3 NRA/LIRA)',
       'DESIGN.md section 5 C04')
+claim('C20',
+      'Bounded symbolic check of the real PixCoord code: elements are unbounded symbolic reals, shapes/index '
+      'expressions are enumerated; broadcast, indexing, +/-, separation, rotation (isometry, additive composition, '
+      'fixed centre) are proved elementwise by the solver; sky conversion is checked for argument forwarding against an '
+      'opaque invertible WCS stub.',
+      'Real-number model; angles as unit-circle atoms; astropy SkyCoord/WCS replaced by a recording stub.',
+      'symbolic execution of the real Python + SMT (z3 NRA)',
+      'DESIGN.md section 5 C20')
